@@ -28,9 +28,15 @@ def build(u):
     u.struct_nested_in(TZH, 'civil_lookup', r'\bstruct\s+civil_lookup\s*\{', 'time_zone')
     u.struct(TZH, 'civil_transition')
     # zone tables
+    # R19: both table element types are 48 bytes; padded to 64 so that pointer <-> index conversion is a shift, not a division
+    u.struct_pad = {'Transition': 16, 'TransitionType': 16}
     u.struct(H, 'Transition')
     u.struct(H, 'TransitionType')
+    # const Transition& / const TransitionType& parameters are passed by value (trivially copyable, never aliased or stored)
+    u.ctx.value_ref_types |= {'Transition', 'TransitionType'}
     u.vector_type('Transition')
+    # R18: local iterator pointers into transitions_ are dereferenced relative to the begin pointer of the same function
+    u.ctx.rebase = {'BreakTime': {'tr': 'begin'}, 'MakeTime': {'tr': 'begin'}, 'NextTransition': {'tr': 'begin'}, 'PrevTransition': {'tr': 'begin'}}
     u.vector_type('TransitionType')
     members = u.class_members(H, 'TimeZoneInfo')
     u.ctx.self_members = members
